@@ -667,6 +667,41 @@ def check(case, ctx):
         same = a1.shape == a2.shape and np.array_equal(a1, a2, equal_nan=True)
         ctx.ok("second call with %s returns the same result" % lab, same,
                {"max_diff": float(np.nanmax(np.abs(a1 - a2))) if a1.shape == a2.shape and a1.size else None, "form": case.p["form"]}, route=name)
+    # concurrent threads (every third fresh-form case): this call and the same function on a second draw of arguments run in two threads, with
+    # thread switches forced inside the library; each must return what it returns alone.  Skipped for functions that draw from NumPy's global
+    # generator (detected by re-running under another seed), whose stream the threads would legitimately share
+    if case.p["form"] == "fresh" and int(case.p["seed"]) % 3 == 0 and not isinstance(r1.value, (SameObject,)):
+        draws = [False]
+
+        def run1(a):
+            np.random.seed(1)
+            s0 = np.random.get_state()
+            v = fn(*a)
+            s1 = np.random.get_state()
+            draws[0] = not (np.array_equal(s0[1], s1[1]) and s0[2:] == s1[2:])        # re-seeded inside or drawn from: the global stream is in use
+            return v
+        alt = call(run1, make_forms(pristine, "fresh", rng))
+        if alt.ok and not draws[0] and flat(alt.value).shape == saved.shape and np.array_equal(flat(alt.value), saved, equal_nan=True):
+            from .. import threads
+            args_b = fac(A(np.random.Generator(np.random.PCG64(int(case.p["seed"]) + 1))))
+            alone_b = call(run, [a.copy() if isinstance(a, np.ndarray) else a for a in args_b])
+            if alone_b.ok:
+                outs, ny = threads.run([lambda: fn(*make_forms(pristine, "fresh", rng)), lambda: fn(*[a.copy() if isinstance(a, np.ndarray) else a for a in args_b])],
+                                       seed=int(case.p["seed"]))
+                for (kind, v), want in zip(outs, (saved, flat(alone_b.value))):
+                    if kind != "ok":
+                        ctx.ok("a call made from its own thread raises nothing it does not raise alone", False, {"error": v}, route=name)
+                        continue
+                    got = flat(v)
+                    ctx.ok("calls made from two concurrent threads return what each returns alone", got.shape == want.shape and np.array_equal(got, want, equal_nan=True),
+                           {"yields_injected": ny, "max_diff": float(np.nanmax(np.abs(got - want))) if got.shape == want.shape and got.size else None}, route=name)
+        else:
+            ctx.note("result depends on NumPy's global generator: concurrent-thread clause not applicable")
+
+
+def extra_evidence():
+    from .. import threads
+    return {"threaded_runs": threads.STATS["runs"], "thread_yields_injected_inside_the_library": threads.STATS["yields"]}
 
 
 def scribble(val, args, undo):
